@@ -659,7 +659,13 @@ class BasePlaceholderManager(MpfController):
             self._eval_methods[ast.Constant] = self._eval_constant
 
     def _eval_tuple(self, node, variables, subscribe):
-        return tuple([self._eval(x, variables, subscribe) for x in node.elts])
+        values = []
+        subscriptions = []
+        for element in node.elts:
+            value, subscription = self._eval(element, variables, subscribe)
+            values.append(value)
+            subscriptions += subscription
+        return tuple(values), subscriptions
 
     @staticmethod
     def _parse_template(template_str):
@@ -767,7 +773,12 @@ class BasePlaceholderManager(MpfController):
             step, step_subscription = self._eval(node.slice.step, variables, subscribe)
             return value[lower:upper:step], subscription + lower_subscription + upper_subscription + step_subscription
 
-        raise TypeError(type(node.slice))
+        # since python 3.9 the index expression is the slice node itself (no ast.Index wrapper)
+        slice_value, slice_subscript = self._eval(node.slice, variables, subscribe)
+        try:
+            return value[slice_value], subscription + slice_subscript
+        except ValueError:
+            raise TemplateEvalError(subscription + slice_subscript)
 
     def _eval_name(self, node, variables, subscribe):
         if node.id in ("true", "false"):
